@@ -409,8 +409,21 @@ class CoverMon(mon.Monitor):
             return False
         if c.get("k") != "Binary" or c["op"] not in ("Gt", "Ge", "Lt", "Le", "Eq"):
             return False
-        me = tast.contains(c, lambda z: z.get("k") == "Path" and z.get("name") == "xend")
-        mv = tast.contains(c, lambda z: z.get("k") == "Path" and z.get("id") in self.timevars)
+
+        def mentions(e, pred, depth=0):
+            """e, with named sub-expressions (`let overshoot = (x + h - xend) * posneg;`) looked through"""
+            if tast.contains(e, pred):
+                return True
+            if depth >= 3:
+                return False
+            for q in tast.find(e, lambda z: z.get("k") == "Path" and z.get("res") == "local"):
+                lets = tast.find(self.main, lambda z: z.get("k") == "Let" and z["pat"].get("k") == "PBind" and z["pat"].get("id") == q.get("id") and z.get("init") is not None)
+                if len(lets) == 1 and not tast.contains(self.main, lambda z: z.get("k") in ("Assign", "AssignOp") and z["l"].get("k") == "Path" and z["l"].get("id") == q.get("id")):
+                    if mentions(lets[0]["init"], pred, depth + 1):
+                        return True
+            return False
+        me = mentions(c, lambda z: z.get("k") == "Path" and z.get("name") == "xend")
+        mv = mentions(c, lambda z: z.get("k") == "Path" and z.get("id") in self.timevars)
         return me and mv
 
     def step(self, st, ev):
@@ -459,7 +472,7 @@ def r_land_cover(rep, f):
         changed = True
         while changed:
             changed = False
-            for n in tast.find(body["body"], lambda z: (z.get("k") == "Let" and z["pat"].get("k") == "PBind" and z["pat"].get("id") in tv and z.get("init") is not None)
+            for n in tast.find(body["body"], lambda z: (z.get("k") == "Let" and z.get("init") is not None and tast.contains(z["pat"], lambda q: q.get("k") == "PBind" and q.get("id") in tv))
                                or (z.get("k") == "Assign" and z["l"].get("k") == "Path" and z["l"].get("id") in tv)):
                 src = n.get("init") if n["k"] == "Let" else n["r"]
                 for p in tast.find(src, lambda z: z.get("k") == "Path" and z.get("res") == "local" and z.get("ty") in ("f64", "f32")):
@@ -558,6 +571,8 @@ def r_land_stretch_sem(rep, f):
                 if nd is None or id(nd) not in ifs or not tast.contains(nd["then"], lambda z: z is a):
                     continue
                 cond = ifs[id(nd)]["cond"]
+                if cond.is_const() or cond.single_atom() in ("true", "false"):
+                    continue   # decided earlier on this path (a named test that an earlier `if` already refined)
                 ck = (id(nd), repr(cond))
                 if ck in seen:
                     continue
